@@ -57,7 +57,7 @@ class List(Expression):
             # Stop at the upper bound. Check before each element, not just
             # after it: a data-dependent bound can be zero.
             if self.max_len is not None:
-                with out.IF(LEN(staging) >= Code(self.max_len)):
+                with out.IF(LEN(staging) >= _bound_code(self.max_len)):
                     out += BREAK
 
             if self.expr.can_partially_succeed():
@@ -78,11 +78,16 @@ class List(Expression):
         if self.min_len == 1 or self.min_len == '1':
             condition = staging
         else:
-            condition = LEN(staging) >= Code(self.min_len)
+            condition = LEN(staging) >= _bound_code(self.min_len)
 
         with out.IF(condition):
             out += RESULT << staging
             out += STATUS << True
+
+
+def _bound_code(bound):
+    # A bound can be any Python expression. Keep it in one piece.
+    return Code(f'({bound})')
 
 
 def _unwrap_bound(bound):
